@@ -53,7 +53,7 @@ def regPut (c : Nat) (txt : Bytes) (ln : Nat) : M Unit := withEd fun ed => { ed 
 def regGetLn (ed : Ed) (c : Nat) : Option Bytes × Option Nat :=
   let c' := if c == 34 then 0 else c
   if c' == 59 then (regGet ed c, some 1)
-  else if c' == 35 || c' == 94 then (regGet ed c, none)
+  else if c' == 35 || c' == 94 then (regGet ed c, some 0)
   else (regGet ed c, some (ed.regs.getRaw c').2)
 
 /-- `lbuf_region(xb, r1, o1, r2, o2)` -/
